@@ -50,7 +50,8 @@ class AbstractBaseIR:
     def __getitem__(self, key: str):
         """
         Custom implementation of __getitem__ that dissolves strings of form "key1/key2/key3" into
-        lookups of form self[key1][key2][key3].
+        lookups of form self[key1][key2][key3]. A key that cannot be resolved falls back to an attribute of the
+        same name, if there is one.
 
         Parameters
         ----------
@@ -60,6 +61,11 @@ class AbstractBaseIR:
         -------
         item
         """
+        return self._resolve(key, attr_fallback=True)
+
+    def _resolve(self, key: str, attr_fallback: bool = True):
+        """Resolves `key1/key2/...`; with `attr_fallback=False` only entries of the hierarchy count (used by
+        `__contains__`, such that an attribute name like `label` or `nodes` is not mistaken for a path)."""
 
         # check type:
         if not isinstance(key, str):
@@ -73,7 +79,7 @@ class AbstractBaseIR:
             for key in key_iter:
                 item = item.getitem_from_iterator(key, key_iter)
         except KeyError as e:
-            if hasattr(self, key):
+            if attr_fallback and hasattr(self, key):
                 item = getattr(self, key)
             else:
                 raise e
@@ -87,7 +93,7 @@ class AbstractBaseIR:
     def __contains__(self, key):
 
         try:
-            self[key]
+            self._resolve(key, attr_fallback=False)
         except KeyError:
             return False
         else:
